@@ -55,7 +55,7 @@ Fixpoint ok_tags (keys : list key) (i : list kinfo) (h : list (Z * rev)) (o : li
           ok_tags keys (fold_left (fun i ka => if (snd ka : bool) then i else info_set i (fst ka) ([], snd (info_get i (fst ka)))) (combine keys after) i) h' o'
       | None =>
           match e with
-          | One (TSet k _ _ tags) | One (TIncr k _ tags) => ok_tags keys (info_set i k (tags, tags ++ snd (info_get i k))) h' o'
+          | One (TSet k _ _ tags) | One (TIncr k _ _ tags) => ok_tags keys (info_set i k (tags, tags ++ snd (info_get i k))) h' o'
           | One (TDel k) => ok_tags keys (info_set i k ([], [])) h' o'
           | One (TDelPrefix p) => ok_tags keys (fold_left (fun i k => match drop_prefix p k with Some _ => info_set i k ([], []) | None => i end) keys i) h' o'
           | _ => ok_tags keys i h' o'
@@ -79,7 +79,7 @@ Fixpoint excl_f20 (reg : registry) (keys : list key) (m : tmap) (h : list (Z * t
   | [] => false
   | (t, e) :: r =>
       let m' := tag_step reg keys m t e in
-      (match e with TSet _ _ _ tags | TIncr _ _ tags => f20_after m' t tags | _ => false end) || excl_f20 reg keys m' r
+      (match e with TSet _ _ _ tags | TIncr _ _ _ tags => f20_after m' t tags | _ => false end) || excl_f20 reg keys m' r
   end.
 (* F21: a key carrying a tag that the registry does not associate with it is explicitly deleted *)
 Fixpoint excl_f21 (reg : registry) (keys : list key) (i : list kinfo) (h : list (Z * tev)) : bool :=
@@ -88,7 +88,7 @@ Fixpoint excl_f21 (reg : registry) (keys : list key) (i : list kinfo) (h : list 
   | (_, e) :: r =>
       let unreg k := existsb (fun t => negb (mems t (key_tags reg k))) (snd (info_get i k)) in
       match e with
-      | TSet k _ _ tags | TIncr k _ tags => excl_f21 reg keys (info_set i k (tags, tags ++ snd (info_get i k))) r
+      | TSet k _ _ tags | TIncr k _ _ tags => excl_f21 reg keys (info_set i k (tags, tags ++ snd (info_get i k))) r
       | TDel k => unreg k || excl_f21 reg keys (info_set i k ([], [])) r
       | TDelPrefix p => existsb (fun k => match drop_prefix p k with Some _ => unreg k | None => false end) keys ||
                         excl_f21 reg keys (fold_left (fun i k => match drop_prefix p k with Some _ => info_set i k ([], []) | None => i end) keys i) r
